@@ -8,7 +8,7 @@
     (3) termination of HAP / APP is proved only on a grid whose bound is in the statement
         (m, n <= 3), by in-kernel evaluation of the model of reduce. *)
 From LC Require Import Spec.Encodings Spec.Confluence Spec.NorEval Model.Reduction Gen.Terms
-  Proofs.Sound Proofs.ReduceProps Proofs.Normalise Proofs.Convert Proofs.ChurchArith.
+  Proofs.Sound Proofs.ReduceProps Proofs.Normalise Proofs.Convert Proofs.ChurchArith Proofs.Returns.
 
 Theorem C13_unary : forall n,
   red (App lc_num_church_succ (church n)) (church (S n)) /\
@@ -77,6 +77,42 @@ Theorem C13_nor_add : forall m n, exists fuel c,
   reduce_m fuel NOR 0 (App (App lc_num_church_add (church m)) (church n)) = Some (church (m + n), c).
 Proof. intros. apply nor_normalises; [apply church_add|apply church_nf]. Qed.
 
+(** the property as stated: what [reduce] returns under the two normalising orders, for ALL m, n *)
+Theorem C13_reduce_returns : forall o m n, lazy o ->
+  returns o (App lc_num_church_succ (church n)) (church (S n)) /\
+  returns o (App lc_num_church_pred (church n)) (church (pred n)) /\
+  returns o (App lc_num_church_fac (church n)) (church (fact n)) /\
+  returns o (App lc_num_church_is_zero (church n)) (bool_t (n =? 0)) /\
+  returns o (App lc_num_church_is_even (church n)) (bool_t (Nat.even n)) /\
+  returns o (App lc_num_church_is_odd (church n)) (bool_t (Nat.odd n)) /\
+  returns o (App (App lc_num_church_add (church m)) (church n)) (church (m + n)) /\
+  returns o (App (App lc_num_church_sub (church m)) (church n)) (church (m - n)) /\
+  returns o (App (App lc_num_church_mul (church m)) (church n)) (church (m * n)) /\
+  returns o (App (App lc_num_church_pow (church m)) (church n)) (church (m ^ n)) /\
+  returns o (App (App lc_num_church_min (church m)) (church n)) (church (Nat.min m n)) /\
+  returns o (App (App lc_num_church_max (church m)) (church n)) (church (Nat.max m n)) /\
+  returns o (App (App lc_num_church_shl (church m)) (church n)) (church (m * 2 ^ n)) /\
+  returns o (App (App lc_num_church_shr (church m)) (church n)) (church (m / 2 ^ n)) /\
+  returns o (App (App lc_num_church_lt (church m)) (church n)) (bool_t (m <? n)) /\
+  returns o (App (App lc_num_church_leq (church m)) (church n)) (bool_t (m <=? n)) /\
+  returns o (App (App lc_num_church_eq (church m)) (church n)) (bool_t (m =? n)) /\
+  returns o (App (App lc_num_church_neq (church m)) (church n)) (bool_t (negb (m =? n))) /\
+  returns o (App (App lc_num_church_geq (church m)) (church n)) (bool_t (n <=? m)) /\
+  returns o (App (App lc_num_church_gt (church m)) (church n)) (bool_t (n <? m)) /\
+  (1 <= n ->
+     returns o (App (App lc_num_church_div (church m)) (church n)) (pair_t (church (m / n)) (church (m mod n))) /\
+     returns o (App (App lc_num_church_quot (church m)) (church n)) (church (m / n)) /\
+     returns o (App (App lc_num_church_rem (church m)) (church n)) (church (m mod n))).
+Proof.
+  intros o m n L.
+  destruct (C13_unary n) as (U1 & U2 & U3 & U4 & U5 & U6).
+  destruct (C13_arithmetic m n) as (A1 & A2 & A3 & A4 & A5 & A6 & A7 & A8).
+  destruct (C13_comparisons m n) as (K1 & K2 & K3 & K4 & K5 & K6).
+  repeat split; try (apply (lazy_returns o); auto; first [apply church_nf | apply bool_nf]).
+  all: intros; destruct (C13_division m n ltac:(assumption)) as (D1 & D2 & D3);
+    apply (lazy_returns o); auto; first [apply church_nf | apply pair_nf; apply church_nf].
+Qed.
+
 Print Assumptions C13_unary.
 Print Assumptions C13_arithmetic.
 Print Assumptions C13_division.
@@ -85,3 +121,4 @@ Print Assumptions C13_nor_returns.
 Print Assumptions C13_hno_returns.
 Print Assumptions C13_any_order_sound.
 Print Assumptions C13_nor_add.
+Print Assumptions C13_reduce_returns.
